@@ -170,7 +170,9 @@ fn check_case_inner(case: &Case) -> CaseResult {
         .label_if(expected.len() >= 3, ">=3_records")
         .label_if(small_block, "block<2")
         .label_if(reader.interrupts > 0, "eintr")
-        .label_if(expected.iter().any(|(b, _)| b.len() > 252), "multi_chunk_record"))
+        .label_if(expected.iter().any(|(b, _)| b.len() > 252), "multi_chunk_record")
+        .label_if(expected.iter().any(|(b, _)| b.len() > 64_260), "record>64260")
+        .label_if(expected.iter().any(|(b, _)| b.len() > 524_288), "record>512KiB"))
 }
 
 /// Streams of dozens of records (several arena chunks' worth) read with small blocks.
@@ -184,6 +186,29 @@ pub fn long_case_strategy() -> impl Strategy<Value = Case> {
         prop_oneof![1 => Just(vec![]), 1 => proptest::collection::vec(super::codec::nudge(), 1..5)],
     )
         .prop_map(|(stream, mut delivery, max_size, limit, block, nudges)| {
+            delivery.block = block;
+            Case {
+                stream,
+                delivery,
+                max_size,
+                limit,
+                nudges,
+            }
+        })
+}
+
+/// A few large records (several HCOBS chunks; sometimes more than a default I/O block or
+/// than the arena's largest chunk), block sizes >= 64.
+pub fn large_case_strategy() -> impl Strategy<Value = Case> {
+    (
+        stream_in::large_stream_spec(),
+        stream_in::delivery(),
+        stream_in::large_block(),
+        proptest::option::weighted(0.2, (any::<u8>(), 0u8..3)),
+        proptest::option::weighted(0.15, (any::<u8>(), 0u8..3)),
+        prop_oneof![2 => Just(vec![]), 1 => proptest::collection::vec(super::codec::nudge(), 1..4)],
+    )
+        .prop_map(|(stream, mut delivery, block, max_size, limit, nudges)| {
             delivery.block = block;
             Case {
                 stream,
@@ -325,6 +350,8 @@ pub fn run(ctx: &Ctx, rep: &mut Report) {
     engine::drive(ctx, rep, "long-streams", long_case_strategy(), cases, check_case);
     let cases = ctx.share(ctx.tier.pick(12_000, 300_000));
     engine::drive(ctx, rep, "block-aligned-tails", aligned_case_strategy(), cases, check_case);
+    let cases = ctx.share(ctx.tier.pick(1_600, 40_000));
+    engine::drive(ctx, rep, "large-records", large_case_strategy(), cases, check_case);
 }
 
 fn replay(_ctx: &Ctx, _group: &str, case: &Value) -> CaseResult {
@@ -334,7 +361,7 @@ fn replay(_ctx: &Ctx, _group: &str, case: &Value) -> CaseResult {
 pub fn def() -> PropDef {
     PropDef {
         id: "C06",
-        rule: "A case is (stream description, delivery, judge parameters): streams and deliveries as in C08 (records, torn and corrupted records, garbage, lone FE, 0..3 delimiters after each token, whole-stream truncation; scripted short reads / EINTR, block sizes {0,1,2,3,4,5,7,8,64,4096,70000,default}, arena preparation); the standard judge gets a size limit placed at the decoded size of some valid record -1/0/+1 and an offset limit placed at the start of some segment -1/0/+1 (or none). Oracle: split the stream at every FE FD with an independent splitter, keep non-empty segments up to the first one starting at or after the limit, keep those the reference decoder accepts with decoded size <= max; next_record_bytes must return exactly that list of (bytes, byte range), then None three times, without error or panic; last_sentinel_offset is the start of the last delimiter read. A small log truncated at every byte is enumerated; long-streams uses up to 70 tokens (several arena chunks' worth of records) with block sizes 3..4096, so that reads cross arena chunk boundaries in many alignments; block-aligned-tails lays out valid filler records so that a record with a 00 00 final header (252- or 504-byte payload) or a short record ends 0..4 bytes around an I/O block boundary (blocks 64 / 100 / 256 / 1000 / 2048 / 4096), with the arena flushed between records through the returned record's arena(). Non-trivial: >= 2 returned records with a skipped (invalid / oversized / empty-payload) segment between two of them, or a read that split an FE|FD pair in a stream with at least one returned record. Distinct: hash of the serialised case.",
+        rule: "A case is (stream description, delivery, judge parameters): streams and deliveries as in C08 (records, torn and corrupted records, garbage, lone FE, 0..3 delimiters after each token, whole-stream truncation; scripted short reads / EINTR, block sizes {0,1,2,3,4,5,7,8,64,4096,70000,default}, arena preparation); the standard judge gets a size limit placed at the decoded size of some valid record -1/0/+1 and an offset limit placed at the start of some segment -1/0/+1 (or none). Oracle: split the stream at every FE FD with an independent splitter, keep non-empty segments up to the first one starting at or after the limit, keep those the reference decoder accepts with decoded size <= max; next_record_bytes must return exactly that list of (bytes, byte range), then None three times, without error or panic; last_sentinel_offset is the start of the last delimiter read. A small log truncated at every byte is enumerated; long-streams uses up to 70 tokens (several arena chunks' worth of records) with block sizes 3..4096, so that reads cross arena chunk boundaries in many alignments; block-aligned-tails lays out valid filler records so that a record with a 00 00 final header (252- or 504-byte payload) or a short record ends 0..4 bytes around an I/O block boundary (blocks 64 / 100 / 256 / 1000 / 2048 / 4096), with the arena flushed between records through the returned record's arena(). large-records: 1..4 tokens built on payloads of up to 140000 bytes (one in nine of 0.5..1.3 MB: more than a default I/O block and than the arena's largest chunk), valid, torn or corrupted, block sizes >= 64 and default. Non-trivial: >= 2 returned records with a skipped (invalid / oversized / empty-payload) segment between two of them, or a read that split an FE|FD pair in a stream with at least one returned record. Distinct: hash of the serialised case.",
         assumptions: &[
             "only the standard judge (chunk_judge) is modelled",
             "readers only deliver short reads and Interrupted errors",
